@@ -51,16 +51,31 @@ class LoopModel:
         self.ctx = ctx
         body = ctx.body(LOOP)
         self.body = body
-        # every Driver call of the crate (outside the impl blocks) must be in this body
-        for p in ctx.F.bodies:
-            if p == LOOP or (p.startswith("<") and " as remapping_loop::Driver>" in p):
+        # crate-local helpers in the loop's cone that (transitively) talk to the Driver or the Mapper are
+        # inlined into the loop's paths (P2, depth <= 3); anchors must nevertheless sit in the loop body itself
+        cone = ctx.cone([LOOP])
+        cg = ctx.callgraph()
+        direct = set()
+        for p in cone:
+            if p == LOOP or (p.startswith("<") and " as remapping_loop::Driver>" in p) or p.startswith("key_transforms::") or "{closure" in p:
                 continue
-            if p.startswith("key_transforms::"):
-                continue  # the mapper's own internals (release_all calls step)
-            if p in ctx.cone([LOOP]):
-                b = ctx.body(p)
-                if any(n.startswith(DRV) or n in (STEP, RELALL) for _, n, _ in b.calls()):
-                    raise Unrecognised("driver-or-mapper-call-outside-loop-body:" + p)
+            b = ctx.body(p)
+            names = [n for _, n, _ in b.calls()]
+            if any(n.startswith(DRV) or n in (STEP, RELALL) for n in names):
+                direct.add(p)
+                if any(n[len(DRV):] in ("poll", "next_keyboard", "next_tablet") for n in names if n.startswith(DRV)):
+                    raise Unrecognised("poll-or-read-call-outside-the-loop-body:" + p)
+        helpers = set(direct)
+        changed = True
+        while changed:
+            changed = False
+            for p in cone:
+                if p in helpers or p == LOOP or p.startswith("key_transforms::") or "{closure" in p or p.startswith("<"):
+                    continue
+                if any(c in helpers for c in cg.get(p, ())):
+                    helpers.add(p)
+                    changed = True
+        self.inline = helpers
         self.anchors = {}   # block -> name
         self.by_name = {}
         for i, name, t in body.calls():
@@ -102,7 +117,7 @@ class LoopModel:
         starts = [("ENTRY", 0)] + [(nm, b) for b, nm in sorted(self.anchors.items())]
         for nm, b in starts:
             stops = set(self.anchors) - ({b} if nm != "ENTRY" else set())
-            w = Walker(body, max_paths=50000)
+            w = Walker(body, max_paths=50000, inline=self.inline)
             paths = w.walk(b, stops=set(self.anchors), plain_headers=plain, start_is_header=False)
             for p in paths:
                 s = Seg(nm, p, body)
